@@ -13,7 +13,7 @@ func init() {
 	register(&Spec{
 		ID:          "C06",
 		Loads:       []LoadSpec{{Patterns: []string{"./contractcourt", "./shachain", "./lnwallet", "./lnwire", "./chanstate", "./channeldb"}}},
-		Explanation: "Decides that the revocation store is bounded by type (a fixed array of 48 buckets plus one index), that a secret is stored and the index advanced only after it reproduced every lower bucket, that no index arithmetic in the shachain package is narrowed below 64 bits, that the store and producer codecs agree, that revoke_and_ack messages are built only by the one generator whose two callers are the persist-then-release revocation and the reconnect retransmission with the documented heights, that the release is dominated by the durable commitment write, and that the status-update writers rewrite the channel only from a copy read in the same transaction (so a stale handle cannot roll durable state back behind released secrets).",
+		Explanation: "Decides that the revocation store is bounded by type (a fixed array of 48 buckets plus one index), that a secret is stored and the index advanced only after it reproduced every lower bucket, that no index arithmetic in the shachain package is narrowed below 64 bits, that the store and producer codecs agree, that revoke_and_ack messages are built only by the one generator whose two callers are the persist-then-release revocation and the reconnect retransmission with the documented heights, that the release is dominated by the durable commitment write, and that the status-update writers rewrite the channel only from a copy read in the same transaction (so a stale handle cannot roll durable state back behind released secrets); that the revocation state of a live channel is changed only under the channel mutex a refresh takes, store insertion, rotation and durable advance in one critical section; that the revoked commitment has left the local chain before the tail is persisted; and that the chain watcher refreshes its snapshot's store from disk before a breach lookup.",
 		NotDecided: []string{
 			"exact derivation for all 2^48 indexes (bit arithmetic and hashing)", "that a corrupted secret is always rejected (hash pre-image resistance)",
 			"crash points between durable writes (C02 covers the ordering clauses)",
